@@ -61,6 +61,8 @@ func Main(v int) string {
     leaf cond { type int32; when "on='true'"; }
     leaf side { type identityref { base l:base-id; } }
     leaf knd { type identityref { base kind; } }
+    leaf knd3 { type identityref { base ka; base kz; base l:base-id; } }
+    leaf-list knds { type identityref { base kind; base l:base-id; base kb; base km; base kz; } }
     leaf un { type union { type int32; type enumeration { enum auto; } type string; } }
     leaf ref { type leafref { path "../name"; } }
     leaf bin { type binary; }
@@ -83,6 +85,7 @@ func Main(v int) string {
   }
   list log { config false; leaf msg { type string; } leaf sev { type level; } }
   augment "/m:sys/m:d1" { leaf extra%[1]d { type string; } }
+  augment "/m:sys/m:how" { case three { leaf a3 { type string; } container b3 { leaf z3 { type string; } } } }
   rpc ping { input { leaf msg { type string; } } output { leaf reply { type string; } } }
   notification beat { leaf seq { type int32; } }
 }
@@ -283,8 +286,8 @@ func Doc(w int) string {
 		items = append(items, fmt.Sprintf(`{"id":%d,"label":"L%d-%d","w":%d,"host":"host%d","port":%d,"at":%d,"in":{"q":%d},"sub":[%s]}`,
 			i, w, i, (w*7+i)%101, i, 1000+i, int64(w)<<40+int64(i), w+i, strings.Join(subs, ",")))
 	}
-	how := []string{`"a1":"x","a2":3`, `"b1":{"z":"zz"}`, `"solo":"s"`}[w%3]
-	return fmt.Sprintf(`{"sys":{"name":"n%d","load":%d,"lvl":"%s","fl":"a c","ratio":%d.125,"big":%d,"neg":%d,"on":%v,"side":"%s","knd":"%s","un":%s,`+
+	how := []string{`"a1":"x","a2":3`, `"b1":{"z":"zz"}`, `"solo":"s"`, `"a3":"t","b3":{"z3":"q"}`}[w%4]
+	return fmt.Sprintf(`{"sys":{"name":"n%d","load":%d,"lvl":"%s","fl":"a c","ratio":%d.125,"big":%d,"neg":%d,"on":%v,"side":"%s","knd":"%s","knd3":"sub-kind2","un":%s,`+
 		`"ref":"n%d","cond":4,"nums":[%d,2,3],"words":["b","a","c"],"blob":{"any":[1,"two",{"three":3}]},`+
 		`"d1":{"d2":{"host":"dh","tags":["t1","t2"]}},"opt":{"x":%d},%s},"item":[%s]}`,
 		w, w%101, []string{"low", "mid", "high"}[w%3], w%10, uint64(18446744073709551615)-uint64(w), -int64(w)-(1<<40), w%2 == 0,
